@@ -439,6 +439,8 @@ def _numpy_only(fn, c, shape, kw, like):
         return getattr(np, fn)(like, c["fill"], **k2) if fn == "full_like" else getattr(np, fn)(like, **k2)
     if fn == "arange":
         args = [c["a"], c["b"]] + ([c["step"]] if c["step"] is not None else [])
+        if c["float_args"]:
+            args[0] = float(args[0]) + 0.5  # (the very arguments check_creation passed)
         return np.arange(*args, **kw)
     if fn in ("linspace", "logspace", "geomspace") and (c.get("vec") or c.get("axis") is not None):
         a0, b0 = {"linspace": (c["a"], c["b"]), "logspace": (c["a"], c["b"] / 4.0), "geomspace": (abs(c["a"]) + 1, abs(c["b"]) + 1)}[fn]
